@@ -1,10 +1,9 @@
 (* Composite_check.v — correspondence between Model/Composite.v and the real
    composite controller: the model is run against the answers the
    implementation received; calls are compared per target. *)
-From MC Require Export Model.Verdict Model.Composite.
+From MC Require Export Model.Verdict Model.Composite Model.TracePreds.
 Local Open Scope list_scope.
 
-Record ev := mkEv { e_call : call; e_ans : answer; e_pre : json; e_post : json }.
 Record round := mkRound { r_cache : cache; r_events : list ev; r_result : sync_result }.
 Record ccase := mkCase { c_cfg : ccfg; c_rounds : list round }.
 
@@ -73,28 +72,128 @@ Fixpoint calls_eqb (a b : list call) : bool :=
   | _, _ => false
   end.
 
-Definition round_diverges (c : ccfg) (r : round) : option string :=
+Definition round_diverges (proj : ccfg -> json -> call -> bool) (with_result : bool) (c : ccfg) (r : round) : option string :=
   let p := sync c (r_cache r) in
   let '(hist, res) := run p (env_of_log (r_events r)) [] in
-  let mcalls := filter (fun c => negb (is_note c)) (map fst (rev hist)) in
-  let icalls := map e_call (r_events r) in
-  if negb (sync_result_eqb res (r_result r)) then Some "result" else
+  let parent := match k_parent (r_cache r) with Some p => p | None => JNull end in
+  let mcalls := filter (proj c parent) (filter (fun c => negb (is_note c)) (map fst (rev hist))) in
+  let icalls := filter (proj c parent) (map e_call (r_events r)) in
+  if with_result && negb (sync_result_eqb res (r_result r)) then Some "result" else
   if negb (Nat.eqb (List.length mcalls) (List.length icalls)) then Some "call-count" else
   if forallb (fun c => calls_eqb (calls_for (call_key c) mcalls) (calls_for (call_key c) icalls)) icalls
   then None else Some "call-content".
 
-Fixpoint first_divergence (c : ccfg) (rs : list round) (i : nat) : option string :=
+Fixpoint first_divergence proj wr (c : ccfg) (rs : list round) (i : nat) : option string :=
   match rs with
   | [] => None
-  | r :: rs' => match round_diverges c r with
+  | r :: rs' => match round_diverges proj wr c r with
                 | Some w => Some (w ++ "@round" ++ string_of_Z (Z.of_nat i))%string
-                | None => first_divergence c rs' (S i) end
+                | None => first_divergence proj wr c rs' (S i) end
   end.
 
-Definition corr_check (c : ccase) : verdict :=
-  match first_divergence (c_cfg c) (c_rounds c) 0 with
+Definition corr_check proj wr (c : ccase) : verdict :=
+  match first_divergence proj wr (c_cfg c) (c_rounds c) 0 with
   | Some w => DIVERGE w
   | None => OK
   end.
 
-Definition C02_check := corr_check.
+(* which calls each property's correspondence looks at *)
+Definition proj_all (c : ccfg) (p : json) (cl : call) : bool := true.
+Definition proj_writes (c : ccfg) (p : json) (cl : call) : bool :=
+  match cl with CApi q => is_write q | _ => false end.
+Definition proj_hooks (c : ccfg) (p : json) (cl : call) : bool :=
+  match cl with CHook _ _ => true | _ => false end.
+Definition proj_child_writes (c : ccfg) (p : json) (cl : call) : bool :=
+  match cl with CApi q => is_write q && negb (targets_parent c p q) | _ => false end.
+Definition proj_claims (c : ccfg) (p : json) (cl : call) : bool :=
+  match cl with
+  | CApi q => (verb_eqb (q_verb q) VUpdate && negb (targets_parent c p q)) || (verb_eqb (q_verb q) VGet && targets_parent c p q)
+  | _ => false end.
+Definition proj_parent (c : ccfg) (p : json) (cl : call) : bool :=
+  match cl with CApi q => targets_parent c p q | CHook _ _ => false end.
+Definition proj_finalizer (c : ccfg) (p : json) (cl : call) : bool :=
+  match cl with
+  | CApi q => (targets_parent c p q && verb_eqb (q_verb q) VUpdate) || (verb_eqb (q_verb q) VCreate)
+  | CHook _ _ => true end.
+
+(* property predicates are evaluated on the implementation's own trace first:
+   a PROPFAIL is a violation by the code, whatever the model says *)
+Fixpoint first_round_fail (f : round -> option string) (rs : list round) (i : nat) : option string :=
+  match rs with
+  | [] => None
+  | r :: rs' => match f r with
+                | Some w => Some (w ++ "@round" ++ string_of_Z (Z.of_nat i))%string
+                | None => first_round_fail f rs' (S i) end
+  end.
+
+Definition check_with (f : ccfg -> round -> option string) proj wr (c : ccase) : verdict :=
+  match first_round_fail (f (c_cfg c)) (c_rounds c) 0 with
+  | Some w => PROPFAIL w
+  | None => corr_check proj wr c
+  end.
+
+Definition with_parent (f : json -> option string) (r : round) : option string :=
+  match k_parent (r_cache r) with Some p => f p | None => None end.
+
+Definition orelse (a b : option string) : option string := match a with Some s => Some s | None => b end.
+
+(* the children the controller holds after claiming, recomputed from cache and events (as C03) *)
+Definition observed_of (c : ccfg) (r : round) (sent : json) : umap :=
+  match make_selector c sent with
+  | None => []
+  | Some sel =>
+      fold_left (fun m kc =>
+        fold_left (fun m o => uinsert o m)
+          (filter (fun o => visible c sent o && sel_matches sel (get_labels o) &&
+                            (controlled_by o (get_uid sent) ||
+                             (is_orphan o && negb (is_deleting o) && negb (is_deleting sent) &&
+                              adopted_in c kc (get_uid sent) o (before_hook (r_events r)))))
+                  (cached (r_cache r) (ch_res kc)))
+          (uinit (ch_api_version kc) (ch_kind kc) m)) (kids c) []
+  end.
+
+Definition C02_check := check_with (fun c r => C02_round c (r_cache r) (r_events r)) proj_writes false.
+
+Definition C03_check := check_with (fun c r =>
+  orelse (C03_round c (r_cache r) (r_events r))
+         (with_parent (fun p => C03_namespace_default c p (r_events r)) r)) proj_hooks false.
+
+Definition C04_check := check_with (fun c r =>
+  orelse (with_parent (fun p => C04_round c (r_cache r) p (r_events r)) r)
+         (C04_label_invariant c (r_events r))) proj_claims false.
+
+(* the desired children of the round as child management receives them
+   (namespace defaulted, controller-uid label added under selector generation) *)
+Definition round_desired (c : ccfg) (evs : list ev) : option (json * list (option json)) :=
+  match round_hook evs with
+  | None => None
+  | Some (_, body, hr) =>
+      let sent := jget "parent" (obj_map body) in
+      match desired_map (hr_children hr) [], make_selector c sent with
+      | Some d0, Some sel =>
+          match enforce_labels c sent sel (uobjects d0) with
+          | Some ds => Some (sent, map Some ds)
+          | None => None end
+      | _, _ => None
+      end
+  end.
+
+Definition C06_round (c : ccfg) (r : round) : option string :=
+  match round_desired c (r_events r) with
+  | None => None
+  | Some (sent, ds) =>
+      orelse (first_some (C06_event_ok c (r_cache r) ds) (after_hook (r_events r)))
+             (match r_result r with
+              | SDone => if (negb (is_deleting sent) || should_finalize c sent) &&
+                            negb (match round_hook (r_events r) with Some (_, _, hr) => hr_finalized hr | None => true end)
+                         then C06_complete c (r_cache r) sent (observed_of c r sent) ds (after_hook (r_events r))
+                         else None
+              | _ => None end)
+  end.
+Definition C06_check := check_with C06_round proj_child_writes false.
+
+Definition C10_check := check_with (fun c r =>
+  with_parent (fun p => orelse (C10_round c (r_cache r) p (r_events r)) (C10_handoff c (r_events r))) r) proj_finalizer false.
+
+Definition C11_check := check_with (fun c r =>
+  with_parent (fun p => orelse (C11_round c p (r_events r) (r_result r)) (C11_attempted c p (r_events r))) r) proj_parent true.
